@@ -188,4 +188,73 @@ theorem toLong32_range (s : List Char) : minInt64 ≤ toLong32 s ∧ toLong32 s 
           exact atoi_range _ i hi
         · unfold minInt64 maxInt64; omega
 
+/-! ### canonical form: the text is *the* radix-32 numeral, not just a decodable one -/
+
+/-- reference radix-32 numeral of a natural number: most significant digit first, digits `0-9a-v`,
+    no leading zero (written from the definition of positional notation, not from the Go loop) -/
+def refDigits (n : Nat) : List Char :=
+  if _h : n < 32 then [digitAt (n : Int)] else refDigits (n / 32) ++ [digitAt ((n % 32 : Nat) : Int)]
+termination_by n
+decreasing_by omega
+
+theorem toStrLoop_ref (n : Nat) : ∀ (m : Nat) (acc : List Char), m ≤ n →
+    toStrLoop (-(m : Int)) acc = refDigits m ++ acc := by
+  induction n with
+  | zero =>
+    intro m acc hm
+    have : m = 0 := by omega
+    subst this
+    rw [toStrLoop, refDigits]
+    simp
+  | succ n ih =>
+    intro m acc hm
+    rw [toStrLoop, refDigits]
+    by_cases h : m < 32
+    · have h' : ¬ (-(m : Int) ≤ -32) := by omega
+      simp only [h', dite_false, h, dite_true, Int.neg_neg, List.singleton_append]
+    · have h' : (-(m : Int) ≤ -32) := by omega
+      simp only [h', dite_true, h, dite_false]
+      have hd := tdiv_nonpos (-(m : Int)) (by omega)
+      have hm' := tmod_nonpos (-(m : Int)) (by omega)
+      have e1 : (-(m : Int)).tdiv 32 = -((m / 32 : Nat) : Int) := by rw [hd]; omega
+      have e2 : -((-(m : Int)).tmod 32) = ((m % 32 : Nat) : Int) := by rw [hm']; omega
+      rw [e1, e2, ih (m / 32) _ (by omega)]
+      simp
+
+/-- the digit loop writes exactly the reference numeral of the magnitude -/
+theorem toStr_canonical (v : Int) (hv : 0 ≤ v) : toStr v = refDigits v.toNat := by
+  unfold toStr
+  have : -v = -((v.toNat : Nat) : Int) := by omega
+  rw [this, toStrLoop_ref v.toNat v.toNat [] (Nat.le_refl _)]
+  simp
+
+theorem digitAt_alphabet : ∀ k : Fin 32, (digitAt (k.val : Int)) ∈ digits.take 32 := by decide +kernel
+theorem digitAt_ne_zero : ∀ k : Fin 32, k.val ≠ 0 → digitAt (k.val : Int) ≠ '0' := by decide +kernel
+
+/-- every digit is in the alphabet `0-9a-v` -/
+theorem refDigits_alphabet (n : Nat) : ∀ c ∈ refDigits n, c ∈ digits.take 32 := by
+  induction n using Nat.strongRecOn with
+  | _ n ih =>
+    rw [refDigits]
+    by_cases h : n < 32
+    · simp only [h, dite_true, List.mem_singleton]
+      intro c hc; subst hc; exact digitAt_alphabet ⟨n, h⟩
+    · simp only [h, dite_false, List.mem_append, List.mem_singleton]
+      intro c hc
+      rcases hc with hc | hc
+      · exact ih (n / 32) (by omega) c hc
+      · subst hc; exact digitAt_alphabet ⟨n % 32, by omega⟩
+
+/-- no leading zero: the first digit of a positive number is not `0` -/
+theorem refDigits_head (n : Nat) (hn : 0 < n) : ∃ c rest, refDigits n = c :: rest ∧ c ≠ '0' := by
+  induction n using Nat.strongRecOn with
+  | _ n ih =>
+    rw [refDigits]
+    by_cases h : n < 32
+    · simp only [h, dite_true]
+      exact ⟨_, [], rfl, digitAt_ne_zero ⟨n, h⟩ (by simp; omega)⟩
+    · simp only [h, dite_false]
+      obtain ⟨c, rest, e, hc⟩ := ih (n / 32) (by omega) (by omega)
+      exact ⟨c, rest ++ [digitAt ((n % 32 : Nat) : Int)], by rw [e]; rfl, hc⟩
+
 end Hexa32
